@@ -146,3 +146,11 @@ type UDPConnLike interface {
 	net.PacketConn
 	VerifQueued() int
 }
+
+// VerifQueueLen returns the number of chunks waiting in the router's queue.
+func (r *Router) VerifQueueLen() int {
+	r.queue.mutex.RLock()
+	defer r.queue.mutex.RUnlock()
+
+	return len(r.queue.chunks)
+}
